@@ -162,8 +162,39 @@ func checkGenericRedaction(c *fw.Ctx) {
 	setc := fw.CallsTo(generic, false, func(n string) bool { return strings.HasSuffix(n, ".SetContent") })
 	c.Check(len(setc) >= 1, rule, "SetContent precedes marshalling", c.P.Pos(generic.Pos()), "", "the routine never installs the filtered content")
 	if len(setc) > 0 {
-		_, bad := fw.MustPrecede(generic, fw.IsCallTo(func(n string) bool { return strings.HasSuffix(n, ".SetContent") }), fw.IsCallTo(fw.NameIs("encoding/json.Marshal")))
-		c.Check(len(bad) == 0, rule, "SetContent precedes marshalling", c.P.Pos(fw.InstrPos(setc[0])), "", "json.Marshal of the projection is reachable without the filtered content having been installed")
+		// paths that reach json.Marshal without SetContent keep the decoded content as it is: that
+		// is the "keep all fields" case and only right for a type listed with an empty keep-list
+		blocked := map[*ssa.BasicBlock]bool{}
+		for _, sc := range setc {
+			blocked[sc.Block()] = true
+		}
+		pcs, okPC := fw.PathCondsAvoiding(generic, blocked)
+		verdict, detail := "ok", ""
+		for _, m := range fw.CallsTo(generic, false, fw.NameIs("encoding/json.Marshal")) {
+			if blocked[m.Block()] {
+				// same block as a SetContent: order inside the block
+				continue
+			}
+			if !okPC {
+				verdict, detail = "undecided", "path conditions too large"
+				break
+			}
+			for _, term := range pcs[m.Block()] {
+				listed := hasAtom(term, true, "[", ".GetType(", "#1")
+				empty := hasAtom(term, true, "builtin.len(", " == 0)") || hasAtom(term, false, "builtin.len(", " > 0)") || hasAtom(term, false, "builtin.len(", " != 0)")
+				if !(listed && empty) {
+					verdict, detail = "fail", "json.Marshal of the projection is reachable without the filtered content having been installed, under "+fw.DNF{term}.String()+" (only a type listed with an empty keep-list keeps all of its content)"
+				}
+			}
+		}
+		switch verdict {
+		case "ok":
+			c.Ok(rule, "SetContent precedes marshalling", c.P.Pos(fw.InstrPos(setc[0])), "")
+		case "fail":
+			c.Fail(rule, "SetContent precedes marshalling", c.P.Pos(fw.InstrPos(setc[0])), detail)
+		default:
+			c.Undecided(rule, "SetContent precedes marshalling", detail)
+		}
 	}
 	// (c) "keep all" only when the type is listed with an empty keep-list
 	//     => the content passed through unfiltered is control-dependent on (ok && len(keep)==0)
@@ -228,23 +259,32 @@ func checkRedactedFlows(c *fw.Ctx) {
 	}
 	// referenceOfEvent: the hashed bytes derive from the redacted JSON
 	if fn := mustFunc(c, rule, "referenceOfEvent"); fn != nil {
-		through := fw.ThroughNames(map[string][]int{"gmsl.CanonicalJSON": {0}, "encoding/json.Marshal": {0}, "gmsl.CanonicalJSONAssumeValid": {0}})
-		calls := fw.CallsTo(fn, false, fw.NameIs("crypto/sha256.Sum256"))
-		for _, call := range calls {
-			// the argument derives from Marshal(event) where event was unmarshalled from the redacted JSON
-			okCanon := fw.DerivesFrom(call.Common().Args[0], fw.FlowSpec{IsSource: fw.IsResultOf(fw.NameIs("gmsl.CanonicalJSON"), 0), All: true})
-			c.Check(okCanon, rule, "referenceOfEvent hashes canonical JSON", c.P.Pos(call.Pos()), "", "the reference hash input is not the result of CanonicalJSON")
-			_ = through
+		// (the steps may live in unexported helpers of referenceOfEvent)
+		calls := deepCallsTo(fn, fw.NameIs("crypto/sha256.Sum256"))
+		for _, dc := range calls {
+			c.CheckDerives(dc.Call.Common().Args[0], dc.Fr, fw.FlowSpec{IsSource: fw.IsResultOf(fw.NameIs("gmsl.CanonicalJSON"), 0), All: true}, rule, "referenceOfEvent hashes canonical JSON", c.P.Pos(dc.Call.Pos()), "", "the reference hash input is not the result of CanonicalJSON")
 		}
 		c.Min(rule+" referenceOfEvent hash sites", len(calls), 1)
-		um := fw.CallsTo(fn, false, fw.NameIs("encoding/json.Unmarshal"))
-		okAny := false
-		for _, call := range um {
-			if fw.DerivesFrom(call.Common().Args[0], fromRedaction) {
-				okAny = true
+		best := fw.Unknown
+		sawRaw := false
+		for _, dc := range deepCallsTo(fn, fw.NameIs("encoding/json.Unmarshal")) {
+			switch fw.Derives3In(dc.Call.Common().Args[0], dc.Fr, fromRedaction) {
+			case fw.Yes:
+				best = fw.Yes
+			case fw.No:
+				if isParamDeep(dc.Call.Common().Args[0], dc.Fr, fn, 0) {
+					sawRaw = true
+				}
 			}
 		}
-		c.Check(okAny, rule, "referenceOfEvent decodes the redacted event", c.P.Pos(fn.Pos()), "", "the event map that is hashed is not decoded from the output of RedactEventJSON")
+		switch {
+		case best == fw.Yes:
+			c.Ok(rule, "referenceOfEvent decodes the redacted event", c.P.Pos(fn.Pos()), "")
+		case sawRaw:
+			c.Fail(rule, "referenceOfEvent decodes the redacted event", c.P.Pos(fn.Pos()), "the event map that is hashed is decoded from the unredacted input, not from the output of RedactEventJSON")
+		default:
+			c.Undecided(rule, "referenceOfEvent decodes the redacted event", "no json.Unmarshal of the redaction found under referenceOfEvent")
+		}
 	}
 	// every VerifyJSONRequest for an event carries the redacted JSON
 	for _, spec := range []string{"VerifyEventSignatures", "HandleSendJoin", "HandleInvite"} {
